@@ -2644,3 +2644,22 @@ mod tests {
         }
     }
 }
+
+// Verification hooks (pass-throughs to private items; compiled only with
+// `--cfg rust_vmm_acpi_tables_verif`).
+#[cfg(rust_vmm_acpi_tables_verif)]
+pub fn verif_create_pkg_length(len: usize, include_self: bool) -> Vec<u8> {
+    create_pkg_length(len, include_self)
+}
+
+#[cfg(rust_vmm_acpi_tables_verif)]
+pub fn verif_hex2byte(v1: char, v2: char) -> u8 {
+    hex2byte(v1, v2)
+}
+
+#[cfg(rust_vmm_acpi_tables_verif)]
+impl Path {
+    pub fn verif_from_parts(root: bool, name_parts: Vec<[u8; 4]>) -> Self {
+        Path { root, name_parts }
+    }
+}
